@@ -46,6 +46,8 @@ pub struct GenCfg {
     pub always_tag: bool,
     /// chance of a tag on a place which is not forced to have one
     pub p_place_tag: f64,
+    /// tag the places of multi-place tasks of single-task jobs sparsely (an untagged place may precede a tagged one)
+    pub sparse_place_tags: bool,
 }
 
 impl Default for GenCfg {
@@ -81,6 +83,7 @@ impl Default for GenCfg {
             p_unreachable_pair: 0.0,
             always_tag: true,
             p_place_tag: 0.2,
+            sparse_place_tags: false,
         }
     }
 }
@@ -309,7 +312,11 @@ pub fn generate_with_grid(rng: &mut Rng, cfg: &GenCfg) -> (PragProblem, Vec<(i64
             let force_tag = cfg.always_tag && (multi || n_places > 1);
             let mut places = Vec::new();
             let mut base = None;
+            // sparse mode: the places of a multi-place task of a SINGLE-task job are tagged with probability one half each
+            // (tasks of multi-task jobs keep their tags: the replayer identifies their activities by them)
+            let sparse = cfg.sparse_place_tags && !multi && n_places > 1;
             for _ in 0..n_places {
+                let force_tag = if sparse { rng.chance(0.5) } else { force_tag };
                 let (p, loc) = mk_place(rng, geo, base, force_tag, tag_counter);
                 base = Some(loc);
                 places.push(p);
